@@ -20,7 +20,7 @@ if m.get('demo_pkg'): print(m['demo_pkg']); sys.exit()
 txt=str(m.get('how_to_run_demo',''))
 for f in os.listdir(d):
     if f.endswith('.go'): txt+=open(os.path.join(d,f)).read()
-r=re.search(r'cp\s+\S*_test\.go\s+(?:/tmp/r6-C\d\d/|\./)?([\w/]+)/\w+_test\.go', txt)
+r=re.search(r'cp\s+\S*_test\.go\s+(?:/tmp/r7-C\d\d/|\./)?([\w/]+)/\w+_test\.go', txt)
 print(r.group(1) if r else '')
 PY
 )
